@@ -82,8 +82,25 @@ def model():
                 sname = '%s_%s_%s' % (pre, t, k)
                 p.append('  <decisionService name="%s" id="_%s"><variable name="%s" typeRef="%s"/><outputDecision href="#_Raw_%s"/></decisionService>' % (sname, sname, sname, tref, k))
                 services.append(sname)
+    # component names written with repeated inner spaces or spaces around an additional symbol: the entry name is the NORMALISED name, for a
+    # component type and for a collection of components alike
+    p.insert(2, '  <itemDefinition name="tOdd"><itemComponent name="price / unit"><typeRef>number</typeRef></itemComponent><itemComponent name="unit  price"><typeRef>number</typeRef></itemComponent></itemDefinition>')
+    p.insert(2, '  <itemDefinition name="tOddRows" isCollection="true"><itemComponent name="price / unit"><typeRef>number</typeRef></itemComponent><itemComponent name="unit  price"><typeRef>number</typeRef></itemComponent></itemDefinition>')
+    typed_input('InOdd', 'tOdd')
+    typed_input('InOddRows', 'tOddRows')
+    typed_output('Odd_ok', 'tOdd', '{price/unit: 1, unit price: 2}')
+    typed_output('OddRows_ok', 'tOddRows', '[{price/unit: 1, unit price: 2}, {price/unit: 3, unit price: 4}]')
+    typed_output('OddRows_bad', 'tOddRows', '[{price/unit: 1, unit price: "x"}]')
+    # knowledge models invoked BY NAME: the result of the body is coerced to the type of the knowledge model's variable (wrap, unwrap, unchanged, null)
+    bkms = []
+    for (n_, tref, text) in (('wrap', 'tList_number', '5'), ('unwrap', 'number', '[7]'), ('same', 'number', '7'), ('list', 'tList_number', '[1, 2]'), ('wrong', 'number', '"a"'), ('wrong_item', 'tList_number', '["a"]'),
+                             ('pair', 'tPair', '{a: 1, b: true}'), ('pair_more', 'tPair', '{a: 1, b: true, c: 3}'), ('pair_less', 'tPair', '{a: 1}'), ('pair_wrap', 'tPersonList', '{name: "a", age: 1}')):
+        name = 'Bk_' + n_
+        p.append('  <businessKnowledgeModel name="%s" id="_%s"><variable name="%s" typeRef="%s"/><encapsulatedLogic><literalExpression><text>%s</text></literalExpression></encapsulatedLogic></businessKnowledgeModel>'
+                 % (name, name, name, tref, text.replace('&', '&amp;').replace('<', '&lt;').replace('"', '&quot;')))
+        bkms.append(name)
     p.append('</definitions>')
-    return '\n'.join(p), decisions + services
+    return '\n'.join(p), decisions + services + bkms
 
 
 def cases():
@@ -134,6 +151,11 @@ def cases():
         out.append(('{InAlias: %s}' % w, {'Echo_InAlias': e}))
         if w not in ('4', '0'):   # whether allowed values also constrain an OUTPUT is not stated by the property
             out.append(('{}', {'Out_Small_%s' % w.strip('"'): e}))
+    out.append(('{InOdd: {price/unit: 1, unit price: 2}}', {'Echo_InOdd': '{price/unit: 1, unit price: 2}'}))
+    out.append(('{InOddRows: [{price/unit: 1, unit price: 2}]}', {'Echo_InOddRows': '[{price/unit: 1, unit price: 2}]'}))
+    out.append(('{}', {'Out_Odd_ok': '{price/unit: 1, unit price: 2}', 'Out_OddRows_ok': '[{price/unit: 1, unit price: 2}, {price/unit: 3, unit price: 4}]', 'Out_OddRows_bad': 'null',
+                       'Bk_wrap': '[5]', 'Bk_unwrap': '7', 'Bk_same': '7', 'Bk_list': '[1, 2]', 'Bk_wrong': 'null', 'Bk_wrong_item': 'null', 'Bk_pair': '{a: 1, b: true}',
+                       'Bk_pair_more': '{a: 1, b: true, c: 3}', 'Bk_pair_less': 'null', 'Bk_pair_wrap': '[{age: 1, name: "a"}]'}))
     return out
 
 
@@ -176,7 +198,7 @@ def main():
     try:
         path = os.path.join(work, 'm.xml')
         open(path, 'w', encoding='utf-8').write(xml)
-        pr = subprocess.run([exe, 'modelbatch', path] + ctxs, capture_output=True, text=True, timeout=1200)
+        pr = subprocess.run([exe, 'modelbatchk', path] + ctxs, capture_output=True, text=True, timeout=1200)
         got = {}
         for line in pr.stdout.splitlines():
             t = line.split('\t')
